@@ -174,7 +174,7 @@ Definition v_reverse (x : val) : res val :=
 
 Definition v_first (x : val) : res val :=
   match x with
-  | VStr (c :: _) => Ok (VStr [c])         (* First of a string / of a character is a one-character string here *)
+  | VStr (c :: _) => Ok (VChar c)
   | VChar c => Err E_UNMODELLED            (* depends on which of klongpy's two KGChar classes the character has *)
   | VList (v :: _) => Ok v
   | VDict _ => Err E_UNMODELLED
